@@ -270,7 +270,7 @@ def run_trace(trace_path, nshards=8, timeout=3000, module="TzRsTrace", min_event
             zone_at = []          # index (1-based) of the zone-setting event in force at each line
             cur = 0
             for i, ln in enumerate(lines, 1):
-                if '"op":"zone"' in ln or '"op":"tzif"' in ln or '"op":"resolve"' in ln:
+                if '"op":"zone"' in ln or '"op":"tzif"' in ln or '"op":"resolve"' in ln or '"op":"fixedzone"' in ln:
                     cur = i
                 zone_at.append(cur)
             for (idx, tag) in badl:
